@@ -37,7 +37,7 @@ def make_case(ctx, g, prior=None):
     fails = []
     if prior is None:
         w = World()
-        b = DocBuilder(g, w, malformed=0.0, repeat_id=0.2, xml=True, subtypes=0.3, refused=0.15, reinstant=0.15)
+        b = DocBuilder(g, w, malformed=0.0, repeat_id=0.2, xml=True, subtypes=0.3, refused=0.15, reinstant=0.15, builtin_names=0.05)
         d, scopes = b.random_document(n_records=g.rng.randint(1, 8))
     else:
         # second chapter of the same history: the document was changed in place after it had been exported once
